@@ -480,7 +480,10 @@ class UpdateLoop(LoopContract):
     def inv(self):
         u = self.u
         s = u["self"]
-        # under the lock: not stale => what was rendered last is the current version
+        # under the lock: not stale, and something was rendered before (a display that never rendered renders regardless of the flag)
+        # => what was rendered last is the current version
+        if s._last_render_time is None:
+            return z3.BoolVal(True)
         return z3.Implies(z3.Not(s.stale_t), u["rendered"] == u["version"])
 
     def establish(self, ctx, it, locs):
@@ -492,7 +495,9 @@ class UpdateLoop(LoopContract):
         u["version"] = ctx.fresh(IntS, "version")
         u["rendered"] = ctx.fresh(IntS, "rendered")
         s.stale_t = ctx.fresh(z3.BoolSort(), "stale")
-        s._last_render_time = None if ctx.choose(2, "rendered-before") == 1 else SRealT(ctx, ctx.fresh(RealS, "last"))
+        # "never rendered" (None) is a state of the loop only if the constructor establishes it (the loop itself only ever stores times)
+        never = u["none_allowed"] and ctx.choose(2, "rendered-before") == 1
+        s._last_render_time = None if never else SRealT(ctx, ctx.fresh(RealS, "last"))
         u["outputs"] = []
         ctx.assume(self.inv())
         # the head of an arbitrary iteration: either the event has not been observed yet, or the previous iteration
@@ -505,6 +510,7 @@ class UpdateLoop(LoopContract):
 
     def preserve(self, ctx, locs):
         ctx.check("update-loop/preserve", self.inv())
+        ctx.check("update-loop/preserve:never-rendered-marker-only-if-the-constructor-sets-it", bool(self.u["self"]._last_render_time is not None or self.u["none_allowed"]))
         if locs.get("done") is True:
             ctx.check("update-loop/preserve:iteration-that-observed-the-done-event-leaves-the-final-state-rendered", self.u["rendered"] == self.u["version"])
         else:
@@ -521,7 +527,7 @@ class SRealT(SReal):
 
 
 @unit("progress.final-render", props=["C20"], functions=[(SP, "SimpleProgressObserver._run_update_thread"), (SP, "SimpleProgressObserver._do_render"),
-                                                         (SP, "SimpleProgressObserver.__exit__")],
+                                                         (SP, "SimpleProgressObserver.__exit__"), (SP, "SimpleProgressObserver.__init__")],
       assumptions=["T4 Event.wait returns True once the event is set; Thread.join waits for the thread", "C15: no notification arrives after __exit__ has begun",
                    "notifications (which set _stale under the lock) interleave before every lock acquisition"], min_obligations=4)
 def final_render_unit(ctx):
@@ -581,13 +587,7 @@ def final_render_unit(ctx):
         def time():
             return SRealT(ctx, ctx.fresh(RealS, "now"))
 
-    s._lock, s._done_event, s._state = Lock(), Event(), St()
     s._render, s._output = _render, _output
-    s._initial_update_delay, s._min_update_interval = 1, 1
-    s._max_update_interval = SRealT(ctx, ctx.fresh(RealS, "maxint"))
-    s._exception_tuples, s._new_exception_index = [], 0
-    s._start_time = SRealT(ctx, ctx.fresh(RealS, "start"))
-    s._last_render_time = None
 
     # _stale is read/written as an attribute by the real code: map it onto the symbolic flag
     class SelfT(Self):
@@ -601,7 +601,8 @@ def final_render_unit(ctx):
 
         @_stale.setter
         def _stale(self_, v):
-            ctx.check("protected-write[_stale]:only-while-holding-_lock", bool(u.get("held")))
+            # the constructor writes it before the object is shared with any thread
+            ctx.check("protected-write[_stale]:only-while-holding-_lock", bool(u.get("held") or u.get("constructing")))
             if v is False or v is True:
                 s.stale_t = z3.BoolVal(v)
             else:
@@ -610,6 +611,17 @@ def final_render_unit(ctx):
                 u["cleared_at_version"] = u["version"]
 
     s.__class__ = SelfT
+    # the initial state is whatever the REAL constructor establishes (the flag, the never-rendered marker, the start time)
+    class _threading:
+        pass
+
+    _threading.Lock, _threading.Event, _threading.Thread = Lock, Event, None
+    init_env = {"threading": _threading, "time": _time, "State": lambda *a, **k: St()}
+    init = get(SP, "SimpleProgressObserver.__init__").compile_into(init_env)
+    u["constructing"] = True
+    init(s, initial_update_delay=1, min_update_interval=1, max_update_interval=SRealT(ctx, ctx.fresh(RealS, "maxint")))
+    u["constructing"] = False
+    u["none_allowed"] = s._last_render_time is None
     vc = VC(ctx, loops={})
     loop = UpdateLoop(u)
     vc.resolve_loop = lambda key, it: loop
